@@ -8,8 +8,8 @@
   hist.reuse    every catalogue class: one instance called at (x1,t1), (x2,t2), (x1,t1) - first and third result bit-equal, and
                 the second bit-equal to the first call of a fresh, identically constructed instance (state kept on the
                 instance between calls: cached radii, per-call attributes, warm starts)
-  hist.shared   black-box Noh wrappers: the caller's initial-condition dictionary passed to two solvers, edited after the
-                construction, or the constructors' default dictionary edited through another instance - the first solver's
+  hist.shared   black-box Noh wrappers: the caller's initial-condition dictionary passed to two solvers, or the
+                constructors' default dictionary edited through another instance - the first solver's
                 values must be those it returns when it is alone in the interpreter
   batch         the value at a point is unchanged (1e-10) by permutation, subsets, supersets and duplicates of the
                 other points of the request; grid-dependent solvers (Sedov, Mader) are compared on the same grid
@@ -483,8 +483,8 @@ def run_reuse(ctx, p):
 
 # ---- arguments shared between constructions: the caller's dictionary, the constructors' default dictionary ----------------------
 def gen_shared(rng, i, tier):
-    return dict(kind=["caller's dictionary passed to two wrappers", "default dictionary edited through another instance",
-                      "caller's dictionary edited after construction"][i % 3],
+    # (a caller who edits his own dictionary after handing it over is not covered by the property: not a case)
+    return dict(kind=["caller's dictionary passed to two wrappers", "default dictionary edited through another instance"][i % 2],
                 gamma=uni(rng, 1.2, 2.5), rho0=logu(rng, 0.3, 3), u0=-logu(rng, 0.3, 3), geoms=[int(rng.integers(3)), int(rng.integers(3))], t=uni(rng, 0.2, 1.0))
 
 
@@ -557,7 +557,7 @@ def reach(tot, tier):
 
 UNITS = [
     Unit("history", gen_hist, run_hist, quick=96, thorough=960, min_nontrivial=150),
-    Unit("shared", gen_shared, run_shared, quick=36, thorough=360, min_nontrivial=24),
+    Unit("shared", gen_shared, run_shared, quick=24, thorough=240, min_nontrivial=16),
     Unit("reuse", gen_reuse, run_reuse, quick=60 * 4, thorough=60 * 40, min_nontrivial=120),
     Unit("batch", gen_batch, run_batch, quick=len(BATCH) * 4, thorough=len(BATCH) * 40, min_nontrivial=200),
 ]
